@@ -34,16 +34,20 @@ def script_text(df, ver, rule):
     def rel(n):
         return posixpath.relpath(n, here or '.')
     lines = ['# %s version %d (generated)' % (df, ver),
-             'rd() { if [ -e "$1" ]; then tr -d "~" < "$1"; else printf "@none.0()"; fi; }',
+             'rd() { if [ -d "$1" ]; then tr -d "~" < "$1/data"; elif [ -e "$1" ]; then tr -d "~" < "$1"; else printf "@none.0()"; fi; }',
              'vpad() { if [ "${VT_PAD:-0}" -gt 0 ]; then head -c "$VT_PAD" /dev/zero | tr "\\0" "~"; fi; }',
              'vjit() { if [ -n "${VT_JITTER:-}" ]; then _j=$(od -An -N1 -tu1 /dev/urandom); sleep 0.0$((_j % 4))$((_j % 7)); fi; }',
+             # kill point after every script step: the whole process group dies there when VT_KILL names it
+             'vk() { echo "pt $1 $2" >> "$VT_LOG"; if [ "${VT_KILL:-}" = "$1:$2" ]; then kill -9 0; sleep 10; fi; }',
              'case "$1" in']
     for t, ops in rule.items():
         lines.append('  %s)' % shquote(rel(t)))
         lines.append('    echo "start %s" >> "$VT_LOG"; vjit' % t)
-        for o in ops:
+        for oi, o in enumerate(ops):
             op = o['op']
             args = ' '.join(shquote(rel(a)) for a in o['args'])
+            if oi > 0:
+                lines.append('    vk %s %d' % (shquote(t), oi))
             if op == 'ifchange':
                 lines.append('    redo-ifchange %s; vjit' % args)
             elif op == 'redo':
@@ -72,6 +76,10 @@ def script_text(df, ver, rule):
                     lines.append('    { printf "%s" "$OUT"; vpad; } > "$1"')
                 if ch == 'filedir':
                     lines.append('    mkdir "$3"')          # $3 created as a directory
+                if ch == 'dirout':                          # $3 created as a directory that holds the output
+                    lines.append('    mkdir "$3"; { printf "%s" "$OUT"; vpad; } > "$3/data"')
+                if ch == 'dirdirect':                       # the idiom for directory targets: make $1 itself
+                    lines.append('    rm -rf "$1"; mkdir "$1"; { printf "%s" "$OUT"; vpad; } > "$1/data"')
                 if ch == 'filedel':
                     lines.append('    { printf "%s" "$OUT"; vpad; } > "$3"; rm -f "$3"')      # created, then deleted again
                 if ch == 'directold':
@@ -104,17 +112,26 @@ def shquote(x):
 
 
 def stamp_of(path):
-    """the string redo's Stamp::from_metadata produces (state.rs:1000-1023)"""
+    """the string redo's File::read_stamp produces (state.rs: Stamp::from_metadata, with_link_target)"""
+    import stat as S
+
+    def fmt(st):
+        if S.S_ISDIR(st.st_mode):
+            return 'dir'
+        secs, nanos = divmod(st.st_mtime_ns, 10 ** 9)
+        mtime = float(secs) + float(nanos) / 1e9
+        return '%.6f-%d-%d-%d-%d-%d' % (mtime, st.st_size, st.st_ino, st.st_mode, st.st_uid, st.st_gid)
     try:
         st = os.lstat(path)
     except FileNotFoundError:
         return '0'
-    import stat as S
-    if S.S_ISDIR(st.st_mode):
-        return 'dir'
-    secs, nanos = divmod(st.st_mtime_ns, 10 ** 9)
-    mtime = float(secs) + float(nanos) / 1e9
-    return '%.6f-%d-%d-%d-%d-%d' % (mtime, st.st_size, st.st_ino, st.st_mode, st.st_uid, st.st_gid)
+    if S.S_ISLNK(st.st_mode):
+        try:
+            post = fmt(os.stat(path))
+        except FileNotFoundError:
+            post = '0'
+        return fmt(st) + '+' + post
+    return fmt(st)
 
 
 class GateController:
@@ -233,6 +250,8 @@ class Project:
         for n in prog['init']:
             if n in prog['rules']:
                 self.write_do(n, 1)
+            elif n in prog.get('links', {}):
+                self.make_link(n, prog['links'][n][0])
             else:
                 self.write_user(n, 1)
         self.cmdno = 0
@@ -248,6 +267,19 @@ class Project:
             f.write(text)
         os.replace(tmp, self.path(n))
 
+    def make_link(self, n, to):
+        """(re)place n by a symbolic link to the project file `to` (relative, as ln -s would be used)"""
+        import posixpath
+        time.sleep(0.002)
+        tmp = self.path(n) + '.vt-new'
+        os.makedirs(os.path.dirname(tmp), exist_ok=True)
+        try:
+            os.unlink(tmp)
+        except FileNotFoundError:
+            pass
+        os.symlink(posixpath.relpath(to, posixpath.dirname(n) or '.'), tmp)
+        os.replace(tmp, self.path(n))
+
     def write_user(self, n, v):
         self._write(n, render({'n': n, 'k': 'user', 'v': v, 'd': []}))
 
@@ -259,6 +291,8 @@ class Project:
             os.unlink(self.path(n))
         except FileNotFoundError:
             pass
+        except (IsADirectoryError, PermissionError):
+            shutil.rmtree(self.path(n), ignore_errors=True)
 
     def env(self, extra=None):
         env = {k: v for k, v in os.environ.items()
@@ -290,6 +324,8 @@ class Project:
                 shutil.copytree(src, os.path.join(dst, 'p', '.redo'))
             elif os.path.isfile(src):
                 os.link(src, os.path.join(dst, 'p', name))
+            elif os.path.isdir(src):
+                shutil.copytree(src, os.path.join(dst, 'p', name), copy_function=os.link)
         import copy
         other = copy.copy(self)
         other.root = dst
@@ -377,9 +413,12 @@ class Project:
     # ---------------------------------------------------------------- observation
     def snapshot(self):
         files = {}
+        dirs = set()
         for n in self.files:
             try:
-                with open(self.path(n)) as f:
+                if os.path.isdir(self.path(n)):
+                    dirs.add(n)
+                with open(self.path(n) + '/data' if n in dirs else self.path(n)) as f:
                     txt = f.read()
                 core = txt.rstrip('~')
                 files[n] = core
@@ -402,8 +441,11 @@ class Project:
                     edges.add((idname.get(r[0]), idname.get(r[1]), r[2], bool(r[3])))
             finally:
                 con.close()
-        tmps = set(n for n in self.prog['plain'] if os.path.exists(self.path(n) + '.redo.tmp'))
-        return {'files': files, 'rows': rows, 'edges': edges, 'tmp': tmps}
+        links = {n: os.path.normpath(os.path.join(os.path.dirname(n), os.readlink(self.path(n))))
+                 for n in self.files if os.path.islink(self.path(n))}
+        tmps = set(n for n in self.prog['plain'] if os.path.lexists(self.path(n) + '.redo.tmp'))
+        tmpd = set(n for n in tmps if os.path.isdir(self.path(n) + '.redo.tmp'))
+        return {'files': files, 'rows': rows, 'edges': edges, 'tmp': tmps, 'dirs': dirs, 'tmpd': tmpd, 'links': links}
 
     def compare(self, snap, exp):
         """exp: the spec's Snapshot record (JSON).  Returns list of difference strings."""
@@ -418,6 +460,13 @@ class Project:
             wtxt = None if want['k'] == 'none' else render(want)
             if wtxt != have:
                 diffs.append(('file', 'file %s: have %r, spec says %r' % (n, have, wtxt)))
+            elif (n in snap.get('dirs', ())) != (n in exp.get('dirs', ())):
+                diffs.append(('file', '%s: is %s, spec says %s' % (n, 'a directory' if n in snap.get('dirs', ()) else 'a file',
+                                                                  'directory' if n in exp.get('dirs', ()) else 'file')))
+        wl = exp.get('links') or {}
+        wl = dict(wl) if isinstance(wl, dict) else {}
+        if wl != snap.get('links', {}):
+            diffs.append(('file', 'symbolic links: have %s, spec says %s' % (snap.get('links', {}), wl)))
         known = set(self.files) | {'//ALWAYS'}
         have_rows = {n: r for n, r in snap['rows'].items() if n in known}
         want_rows = exp['rows']
@@ -470,6 +519,8 @@ class Project:
         wt = set(exp['tmp'])
         if wt != snap['tmp']:
             diffs.append(('tmp', 'tmp files: have %s, spec says %s' % (sorted(snap['tmp']), sorted(wt))))
+        elif set(exp.get('tmpd', ())) != snap.get('tmpd', set()):
+            diffs.append(('tmp', 'tmp directories: have %s, spec says %s' % (sorted(snap.get('tmpd', ())), sorted(exp.get('tmpd', ())))))
         return diffs
 
 
@@ -499,7 +550,7 @@ def replay_group(prog, alts, root, bindir, trace=None, log_mode=None, jflag=None
     pj = Project(prog, root, bindir, trace=trace, log_mode=log_mode, pad=pad, watch=watch, jitter=jitter)
     report = []
     live = list(alts)
-    direct = any(o['op'] == 'out' and o['ch'] in ('direct', 'directold') for vers in prog['rules'].values()
+    direct = any(o['op'] == 'out' and o['ch'] in ('direct', 'directold', 'dirdirect') for vers in prog['rules'].values()
                  for ver in vers for ops in ver.values() for o in ops)
 
     # (with a failing rule and no --keep-going the set of targets started depends on the command-line order)
@@ -520,6 +571,8 @@ def replay_group(prog, alts, root, bindir, trace=None, log_mode=None, jflag=None
                 f.write('stale partial output of an earlier, killed build\n')
         elif a in ('doedit', 'doadd'):
             pj.write_do(step['n'], step['v'])
+        elif a == 'relink':
+            pj.make_link(step['n'], step['v'])
         elif a == 'crash' or (a == 'cmd' and step.get('killed')):
             # a kill during this command: of the whole tree ('crash') or of one redo process ('killed').
             # The kill lands at the K-th gate request (commit / rename points of the hooked redo); K is
@@ -540,8 +593,16 @@ def replay_group(prog, alts, root, bindir, trace=None, log_mode=None, jflag=None
             dry.run(argv, timeout=cmd_timeout, gate=g0)
             g0.close()
             total = max(1, g0.count)
+            # kills of the whole tree can also land between two steps of a running script (`vk` points); not inside
+            # the redo-stamp window unless that window is allowed
+            pts = []
+            if a == 'crash' and os.path.exists(dry.vtlog) and (prog.get('stamp_window') or not has_stamp):
+                pts = [ln.split()[1:3] for ln in open(dry.vtlog) if ln.startswith('pt ')]
             shutil.rmtree(os.path.join(root, 'dry'), ignore_errors=True)
-            k = 1 + (kill_seed % total)
+            k = 1 + (kill_seed % (total + len(pts)))
+            kill_env = None
+            if k > total:
+                kill_env = {'VT_KILL': '%s:%s' % tuple(pts[k - total - 1])}
             mode = 'tree' if a == 'crash' else 'd'
             fired = []
 
@@ -552,11 +613,13 @@ def replay_group(prog, alts, root, bindir, trace=None, log_mode=None, jflag=None
                 return 'g'
             g1 = GateController(os.path.join(root, 'gates1'), pol, **gkw)
             pj.trace = os.path.join(root, 'kill_trace.ndjson')
-            rc, so, se, started, to = pj.run(argv, timeout=cmd_timeout, gate=g1)
+            rc, so, se, started, to = pj.run(argv, timeout=cmd_timeout, gate=g1, extra_env=kill_env)
             pj.trace = None
             g1.close()
             snap = pj.snapshot()
             hit = [x for x in g1.log if x[3] != 'g']
+            if kill_env and rc == -9:
+                hit = [(k, 0, 'script ' + kill_env['VT_KILL'], 'tree', 'sh', False, False)]
             entry.update({'argv': argv, 'rc': rc, 'started': started, 'kill_at': k, 'gates_in_dry_run': total,
                           'kill_point': hit[0][2] if hit else None, 'stderr': se[-1500:], 'alternatives': len(live),
                           'gate_log': [list(x) for x in g1.log], 'dry_gate_log': [list(x) for x in g0.log]})
